@@ -134,6 +134,14 @@ Proof.
 Qed.
 
 (* ---- rename_key_ (after fixes/C01/D103.diff: a nested new key goes through _set_tuple with validated=False) ---- *)
+Lemma del_path_hdr : forall path self, thdr (fst (del_path path self)) = thdr self.
+Proof.
+  intros [|k rest] [|[] bs dv nm es]; try reflexivity. cbn [del_path].
+  destruct rest as [|k2 rest']; [destruct (amem k es); reflexivity|].
+  destruct (aget k es) as [[|[] ? ? ? ?]|]; try reflexivity.
+  destruct (del_path (k2 :: rest') _) as [c' o]. reflexivity.
+Qed.
+
 Lemma rename_key_coh : forall old new safe self p d,
   coh p d self = true -> coh p d (fst (rename_key old new safe self)) = true.
 Proof.
@@ -145,16 +153,22 @@ Proof.
   destruct (get_path (o0 :: orest) self) as [v| | |] eqn:Eg; try exact Hc.
   destruct self as [|[] bs dv nm es]; try discriminate.
   pose proof (get_path_coh _ _ _ _ _ _ _ Hc eq_refl Eg) as Hv.
+  set (under := path_eqb (firstn (List.length (o0 :: orest)) (n0 :: nrest)) (o0 :: orest)).
+  assert (H0 : coh p d (fst (if under then del_path (o0 :: orest) (Node KTd bs dv nm es) else (Node KTd bs dv nm es, Done))) = true
+               /\ thdr (fst (if under then del_path (o0 :: orest) (Node KTd bs dv nm es) else (Node KTd bs dv nm es, Done))) = Some (KTd, bs, dv)).
+  { destruct under; [split; [now apply del_path_coh|now rewrite del_path_hdr]|split; [exact Hc|reflexivity]]. }
+  destruct (if under then del_path (o0 :: orest) (Node KTd bs dv nm es) else (Node KTd bs dv nm es, Done)) as [s0 o0'].
+  cbn [fst] in H0. destruct H0 as [Hs0 Hh0]. destruct o0'; try exact Hs0.
   destruct nrest as [|n1 nrest'].
-  - pose proof (put_path1_coh n0 v (Node KTd bs dv nm es) bs dv p d Hc eq_refl Hv) as H1.
-    destruct (put_path [n0] v (Node KTd bs dv nm es)) as [s1 o1]. cbn [fst] in H1.
-    destruct o1; try exact H1. destruct (_ && _); [exact H1|]. now apply del_path_coh.
-  - unfold fixed_D103. destruct (has_names v); [exact Hc|].
-    assert (H1 : coh p d (fst (set_tuple (n0 :: n1 :: nrest') (VTree v) INo (Node KTd bs dv nm es))) = true).
-    { apply set_tuple_coh; [exact Hc|]. cbn [value_okb].
+  - pose proof (put_path1_coh n0 v s0 bs dv p d Hs0 Hh0 Hv) as H1.
+    destruct (put_path [n0] v s0) as [s1 o1]. cbn [fst] in H1.
+    destruct o1; try exact H1. destruct (_ || _); [exact H1|]. now apply del_path_coh.
+  - unfold fixed_D103. destruct (has_names v); [exact Hs0|].
+    assert (H1 : coh p d (fst (set_tuple (n0 :: n1 :: nrest') (VTree v) INo s0)) = true).
+    { apply set_tuple_coh; [exact Hs0|]. cbn [value_okb].
       eapply coh_nodev. eapply coh_weaken; [exact Hv|apply prefixb_nil]. }
-    destruct (set_tuple (n0 :: n1 :: nrest') (VTree v) INo (Node KTd bs dv nm es)) as [s1 o1]. cbn [fst] in H1.
-    destruct o1; try exact H1. destruct (_ && _); [exact H1|]. now apply del_path_coh.
+    destruct (set_tuple (n0 :: n1 :: nrest') (VTree v) INo s0) as [s1 o1]. cbn [fst] in H1.
+    destruct o1; try exact H1. destruct (_ || _); [exact H1|]. now apply del_path_coh.
 Qed.
 
 (* ---- create_nested / set_non_tensor ---- *)
@@ -270,12 +284,17 @@ Lemma flatten_in_coh : forall sep self p d, coh p d self = true -> coh p d (fst 
 Proof.
   intros sep self p d Hc. destruct self as [|[] bs dv nm es]; try exact Hc. cbn [flatten_in].
   destruct (Nat.ltb _ _); [exact Hc|].
-  match goal with |- context [seq_steps ?f ?l ?s0] => pose proof (seq_steps_inv _ f (fun x => coh p d x = true) l s0 Hc) as Hs end.
-  match type of Hs with ?A -> _ => assert (HA : A) end.
-  { intros a x _ Hcs. now apply rename_key_coh. }
-  specialize (Hs HA).
-  match goal with |- context [seq_steps ?f ?l ?s0] => destruct (seq_steps f l s0) as [s1 o1] end. cbn [fst] in Hs.
-  destruct o1; try exact Hs. now apply exclude_in_coh.
+  destruct (forallb _ _); [|exact Hc]. cbn [fst].
+  pose proof Hc as Hall. apply coh_node_iff in Hc as (H1 & H2 & H3 & H4). apply coh_node_iff. repeat split; auto.
+  set (self := Node KTd bs dv nm es) in *.
+  generalize (map (C04_Tree.join sep) (leaf_paths self)) as flat. generalize (leaf_paths self) as leaves.
+  assert (Hgen : forall leaves flat acc, coh_ents bs dv acc = true ->
+            coh_ents bs dv (fold_left (fun acc kg => match snd kg with GVal v => aset (fst kg) v acc | _ => acc end)
+                                      (combine flat (map (fun q => get_path q self) leaves)) acc) = true).
+  { induction leaves as [|q r IH]; intros flat acc Ha; destruct flat as [|f fr]; cbn [map combine fold_left]; try exact Ha.
+    apply IH. cbn [snd fst]. destruct (get_path q self) as [v| | |] eqn:Eg; try exact Ha.
+    apply coh_ents_aset; [exact Ha|]. exact (get_path_coh _ _ _ _ _ _ _ Hall eq_refl Eg). }
+  intros leaves flat. apply Hgen. reflexivity.
 Qed.
 
 Lemma unflatten_in_coh : forall sep self p d, coh p d self = true -> coh p d (fst (unflatten_in sep self)) = true.
